@@ -89,11 +89,16 @@ func newRT(cfg string) *rt {
 // is reused for up to poolUses programs; it is discarded at once if a run
 // leaves frames on the stack, is cancelled or panics.  Every disagreement is
 // re-confirmed in fresh runtimes (pool == nil) before it is reported.
-type pool struct{ rts map[string]*rt }
+type pool struct {
+	rts map[string]*rt
+	// singleFits memoises, per worker, whether one loop of a sequence case
+	// stays under the tail-iteration limit (independent of K)
+	singleFits map[string]bool
+}
 
 const poolUses = 256
 
-func newPool() *pool { return &pool{rts: map[string]*rt{}} }
+func newPool() *pool { return &pool{rts: map[string]*rt{}, singleFits: map[string]bool{}} }
 
 // execute runs src under one configuration, in a fresh runtime when p is nil.
 // hostCall is one entry from the host through LEnv.FunCall after the source
@@ -272,4 +277,36 @@ func Describe(c Case) string {
 		fmt.Fprintf(&b, "FINDING %s: expected %s; got %s\n", f.Oracle, f.Expected, f.Got)
 	}
 	return b.String()
+}
+
+// singleLoopsFit reports whether every loop of a sequence case, run ALONE in a
+// fresh runtime with elimination on and the case's limit, completes without
+// error.  The tail-iteration count of one loop is not simply its number of
+// turns (a funcall/apply frame that tail-calls funcall/apply again is itself
+// a loop frame and counts its own turns), so the precondition "no single loop
+// reaches the limit" is measured, not assumed.
+func singleLoopsFit(p *pool, c Case) bool {
+	key := fmt.Sprintf("%s|%s|%s|%d|%d", strings.Join(c.Shape, ">"), c.Starter, c.Funcs, c.N, c.Limit)
+	if p != nil {
+		if v, ok := p.singleFits[key]; ok {
+			return v
+		}
+	}
+	starts := []string{"f0"}
+	if c.Funcs == "alt" {
+		starts = append(starts, "f1")
+	}
+	fits := true
+	for _, fn := range starts {
+		c1 := c
+		c1.single = fn
+		o := execute(nil, Source(c1), optsOf(c1), cfgOn)
+		if o.Out.IsErr || o.GoPanic != "" {
+			fits = false
+		}
+	}
+	if p != nil {
+		p.singleFits[key] = fits
+	}
+	return fits
 }
